@@ -5,6 +5,7 @@ Import ListNotations.
 Require Import Fggs.Model.Axis Fggs.Model.AxisCheck Fggs.Model.AxisEnum Fggs.Model.XVal Fggs.Model.PTensor Fggs.Model.PTensorCheck.
 Require Import Fggs.Proofs.Axis_sem Fggs.Proofs.Axis_unify Fggs.Proofs.Axis_antiunify Fggs.Proofs.Axis_complete Fggs.Proofs.Axis_repr.
 Require Import Fggs.Proofs.PTensor_sem Fggs.Proofs.PTensor_dense Fggs.Proofs.PTensor_views Fggs.Proofs.PTensor_unary.
+Require Import Fggs.Proofs.PTensor_binary Fggs.Proofs.PTensor_xval.
 Local Open Scope nat_scope.
 
 (** * L2: the axis algebra *)
@@ -204,3 +205,90 @@ Theorem C06_div_scalar_guarded : forall s (t r : pt) next idx,
   denote xval r idx = xdiv (denote xval t idx) s.
 Proof. exact div_scalar_refines. Qed.
 Print Assumptions C06_div_scalar_guarded.
+
+(** * binary operations through expansion / anti-unification
+
+    Full statement (open for operands that need broadcasting -- different ranks or a unit dimension
+    against a non-unit one):
+      forall t u, wf t -> wf u -> pt_binary op (op dt du) next t u = Ok (r, _) ->
+        forall idx in bounds, denote r idx = op (denote t (broadcast idx)) (denote u (broadcast idx)).
+    Proved below under the boolean guards [no_broadcast] (equal rank, no unit-against-non-unit
+    dimension) and [sizes_agree] (the anti-unification recorded parts of equal sizes, which is what
+    well-typedness of the two operands over a common shape gives): [_partial]. *)
+Theorem C06_binary_refines_partial : forall (V : Type) (op : V -> V -> V) dflt next (t u r : ptensor V) next' x idx,
+  wf V t -> wf V u -> vars_below V next t -> vars_below V next u ->
+  no_broadcast V t u = true ->
+  expansion V next t u = Ok x -> sizes_agree x = true ->
+  pt_binary V op dflt next t u = Ok (r, next') ->
+  dflt = op (default t) (default u) ->
+  length idx = length (vaxes t) ->
+  denote V r idx = op (denote V t idx) (denote V u idx).
+Proof. exact binary_refines. Qed.
+Print Assumptions C06_binary_refines_partial.
+
+(** all three code paths of [commutative] (add, mul, logaddexp, maximum, logical and/or) *)
+Theorem C06_commutative_refines_partial : forall (V : Type) (veqb : V -> V -> bool) (op : V -> V -> V) identity dflt next
+                            (t u r : ptensor V) next' x idx,
+  (forall a b, veqb a b = true -> a = b) -> (forall a, op a identity = a) -> (forall a b, op a b = op b a) ->
+  wf V t -> wf V u -> vars_below V next t -> vars_below V next u ->
+  no_broadcast V t u = true ->
+  expansion V next t u = Ok x -> sizes_agree x = true ->
+  pt_commutative V veqb op identity dflt next t u = Ok (r, next') ->
+  dflt = op (default t) (default u) ->
+  length idx = length (vaxes t) ->
+  denote V r idx = op (denote V t idx) (denote V u idx).
+Proof. exact commutative_refines. Qed.
+Print Assumptions C06_commutative_refines_partial.
+
+(** [sub] (and [div], whose reciprocal laws are hypotheses here) *)
+Theorem C06_sub_like_refines_partial : forall (V : Type) (veqb : V -> V -> bool) (op : V -> V -> V) (inv : V -> V) (op' : V -> V -> V)
+                         identity dflt next (t u r : ptensor V) next' x idx,
+  (forall a b, veqb a b = true -> a = b) -> (forall a, op a identity = a) ->
+  (forall a b, op' (inv b) a = op a b) -> (forall b, op identity b = inv b) ->
+  wf V t -> wf V u -> vars_below V next t -> vars_below V next u ->
+  no_broadcast V t u = true ->
+  expansion V next t u = Ok x -> sizes_agree x = true ->
+  pt_sub_like V veqb op inv op' identity dflt next t u = Ok (r, next') ->
+  dflt = op (default t) (default u) ->
+  length idx = length (vaxes t) ->
+  denote V r idx = op (denote V t idx) (denote V u idx).
+Proof. exact sub_like_refines. Qed.
+Print Assumptions C06_sub_like_refines_partial.
+
+(** the laws hold on the concrete carrier: add, mul, maximum, sub *)
+Theorem C06_add_partial : forall next (t u r : pt) next' x idx,
+  wf xval t -> wf xval u -> vars_below xval next t -> vars_below xval next u ->
+  no_broadcast xval t u = true -> expansion xval next t u = Ok x -> sizes_agree x = true ->
+  length idx = length (vaxes t) ->
+  pt_commutative xval xeqb' xadd (XF 0) (xadd (default t) (default u)) next t u = Ok (r, next') ->
+  denote xval r idx = xadd (denote xval t idx) (denote xval u idx).
+Proof. exact add_refines. Qed.
+Print Assumptions C06_add_partial.
+
+Theorem C06_mul_partial : forall next (t u r : pt) next' x idx,
+  wf xval t -> wf xval u -> vars_below xval next t -> vars_below xval next u ->
+  no_broadcast xval t u = true -> expansion xval next t u = Ok x -> sizes_agree x = true ->
+  length idx = length (vaxes t) ->
+  pt_commutative xval xeqb' xmul (XF 1) (xmul (default t) (default u)) next t u = Ok (r, next') ->
+  denote xval r idx = xmul (denote xval t idx) (denote xval u idx).
+Proof. exact mul_refines. Qed.
+Print Assumptions C06_mul_partial.
+
+Theorem C06_maximum_partial : forall next (t u r : pt) next' x idx,
+  wf xval t -> wf xval u -> vars_below xval next t -> vars_below xval next u ->
+  no_broadcast xval t u = true -> expansion xval next t u = Ok x -> sizes_agree x = true ->
+  length idx = length (vaxes t) ->
+  xisnan (default u) = false ->
+  pt_commutative xval xeqb' xmax XNInf (py_max (default t) (default u)) next t u = Ok (r, next') ->
+  denote xval r idx = xmax (denote xval t idx) (denote xval u idx).
+Proof. exact maximum_refines. Qed.
+Print Assumptions C06_maximum_partial.
+
+Theorem C06_sub_partial : forall next (t u r : pt) next' x idx,
+  wf xval t -> wf xval u -> vars_below xval next t -> vars_below xval next u ->
+  no_broadcast xval t u = true -> expansion xval next t u = Ok x -> sizes_agree x = true ->
+  length idx = length (vaxes t) ->
+  pt_sub_like xval xeqb' xsub xneg xadd (XF 0) (xsub (default t) (default u)) next t u = Ok (r, next') ->
+  denote xval r idx = xsub (denote xval t idx) (denote xval u idx).
+Proof. exact sub_refines. Qed.
+Print Assumptions C06_sub_partial.
